@@ -93,6 +93,11 @@ var allSyms = []int{1, 2, 3, 4, 0}
 // linked+unlinked, unlinked+not stored, stored-or-not keyed + key-less in both
 // orders, two key-less records.
 var singlePairs = [][]int{{1, 1}, {1, 2}, {1, 3}, {2, 3}, {3, 3}, {3, 4}, {4, 0}, {0, 4}, {0, 0}}
+
+// value lists that mix TWO distinct key-less new records with stored keyed
+// records in every order (one batch insert: generated keys must come back to
+// the right values, stored ones are stepped over).
+var mixedNewLists = [][]int{{0, 3, 0}, {0, 1, 0}, {3, 0, 0}, {0, 0, 3}, {0, 3, 1, 0}}
 var deletePairs = [][]int{{1, 1}, {1, 2}, {1, 3}, {2, 3}, {3, 4}}
 var keyedSyms = []int{1, 2, 3, 4}
 
@@ -128,6 +133,7 @@ func alphabet(k Kind, slice bool) []Op {
 			perParent = append(perParent, []int{1, 3}, []int{3, 3})
 		} else {
 			perParent = append(perParent, singlePairs...)
+			perParent = append(perParent, mixedNewLists...)
 			if k.polymorphic() {
 				perParent = append(perParent, []int{1, 9}, []int{9, 3})
 			}
@@ -445,7 +451,10 @@ func (m *Model) aliveNew() int {
 
 // enabled: state-dependent guard of the alphabet.
 func enabled(k Kind, ps []uint, m *Model, op Op) (bool, string) {
-	if n := op.newCount(); n > 0 && m.aliveNew()+n > maxNew {
+	// one key-less record per call needs room under maxNew; a call with several
+	// key-less records is enabled only while none is stored (so at most as many
+	// as the largest such call are ever stored at once)
+	if n := op.newCount(); n == 1 && m.aliveNew()+n > maxNew || n > 1 && m.aliveNew() > 0 {
 		return false, "row-cap"
 	}
 	if !op.mutator() {
